@@ -3,7 +3,7 @@
    used only for the names of error kinds in driver output) are mapped to OCaml's; N, Z, positive
    and nat stay Coq datatypes.  No Extract Constant / Extract Inductive of our own. *)
 From Coq Require Import ExtrOcamlBasic ExtrOcamlString.
-From Theo Require Import Base VMModel Tokens Errors Regex Lexer Scan Gen_Lexer.
+From Theo Require Import Base VMModel Tokens Errors Regex Lexer Scan Gen_Lexer MacroExtract Grammar LR MacroApply.
 Extraction Language OCaml.
 Set Extraction KeepSingleton.
 Cd "extracted".
@@ -12,5 +12,9 @@ Separate Extraction
   VMModel.init VMModel.api_step VMModel.run_hist VMModel.views VMModel.isDone VMModel.getCurrentBreak
   VMModel.exec1 VMModel.execute VMModel.available VMModel.bp_ltb VMModel.z_ltb
   Tokens.tk_num Tokens.all_tkinds Errors.ekind_name Errors.perr_type
-  Scan.scan Gen_Lexer.rules Lexer.lex.
+  Scan.scan Gen_Lexer.rules Lexer.lex
+  MacroExtract.extract_macros
+  Grammar.calculate_first_sets Grammar.add_rule Grammar.create_nt Grammar.empty_grammar Grammar.first
+  MacroApply.apply_macros MacroApply.apply_macros_gen MacroApply.make_detector
+  LR.generate_tables LR.parse LR.hull LR.jump LR.elements.
 Cd "..".
